@@ -1,0 +1,66 @@
+//go:build verif
+
+// Add-only hooks for the verification harness in /verif (property C19), track registration.
+// No behaviour of the package is changed.
+package app
+
+import (
+	"context"
+	"sort"
+	"sync"
+)
+
+// VerifTrackTable is what addTrData maintains: the keys of trDatas (sorted), trIDs and masterTrName.
+type VerifTrackTable struct {
+	Keys   []string
+	TrIDs  []string
+	Master string
+}
+
+func verifTrackTable(ch *channel) VerifTrackTable {
+	ch.mu.RLock()
+	defer ch.mu.RUnlock()
+	t := VerifTrackTable{Master: ch.masterTrName, TrIDs: append([]string{}, ch.trIDs...)}
+	for k := range ch.trDatas {
+		t.Keys = append(t.Keys, k)
+	}
+	sort.Strings(t.Keys)
+	return t
+}
+
+// TrackTable returns the track table of a channel of the receiver.
+func (v *VerifReceiver) TrackTable(chName string) (VerifTrackTable, bool) {
+	ch, ok := v.R.channelMgr.GetChannel(chName)
+	if !ok {
+		return VerifTrackTable{}, false
+	}
+	return verifTrackTable(ch), true
+}
+
+// VerifRegisterConcurrently creates a channel as ChannelMgr does and calls addTrData for every
+// (name, contentType) from its own goroutine, all released by one barrier (sequential = true: one
+// after the other in the given order); it returns the resulting track table.
+func VerifRegisterConcurrently(names, contentTypes []string, sequential bool) VerifTrackTable {
+	ctx, cancel := context.WithCancel(context.Background())
+	defer cancel()
+	ch := newChannel(ctx, ChannelConfig{Name: "verif"}, "")
+	if sequential {
+		for i := range names {
+			ch.addTrData(&trData{name: names[i], contentType: contentTypes[i]})
+		}
+		return verifTrackTable(ch)
+	}
+	start := make(chan struct{})
+	var wg sync.WaitGroup
+	for i := range names {
+		wg.Add(1)
+		go func(i int) {
+			defer wg.Done()
+			<-start
+			ch.addTrData(&trData{name: names[i], contentType: contentTypes[i]})
+		}(i)
+	}
+	close(start)
+	wg.Wait()
+	return verifTrackTable(ch)
+}
